@@ -138,7 +138,8 @@ fn run(ctx: &RunCtx) -> Report {
         let ann_keys = ann_keys.clone();
         let honest_item = honest_item.clone();
         let mut hr = Rng::new(ctx.seed ^ 0xb12);
-        rawnet.set_hook(Box::new(move |rctx, p, idx, from, msg: &Krpc| {
+        rawnet.set_hook(Box::new(move |rctx, sh, idx, from, msg: &Krpc| {
+            let p = &sh.peers[idx];
             let Some(f) = active.iter().find(|f| f.0 == idx) else {
                 return HookResult::Default;
             };
